@@ -117,6 +117,8 @@ func (s *mstate) concat() []byte {
 
 var c17Payloads = [][]string{{"", "a", "bc"}, {"", "d", "ef"}, {"", "g", "hi"}, {"", "j", "kl"}}
 
+const c17MaxStates = 2_500_000
+
 // c17Copy as a buffer size: drain with io.Copy
 const c17Copy = -7
 
@@ -595,6 +597,11 @@ func c17Run(c *vh.Ctx) {
 	for len(frontier) > 0 {
 		if c.Expired() {
 			c.Cap(fmt.Sprintf("deadline reached at BFS depth %d (all shallower depths fully covered)", depth))
+			break
+		}
+		if states > c17MaxStates {
+			// (the frontier keeps one replayable path per state: memory, not time, is the limit here)
+			c.Cap(fmt.Sprintf("state budget of %d reached at BFS depth %d (all shallower depths fully covered)", c17MaxStates, depth))
 			break
 		}
 		var next []node
